@@ -33,8 +33,13 @@ def gen(tier, rng):
         f = rng.choice(FROMS)
         to = [rng.choice(TOS) for _ in range(rng.choice([1, 1, 2, 3]))]
         msg = rng.choice(MSGS)
-        kind = rng.choice(["ok", "ok", "fail", "failbin", "killed"])
+        kind = rng.choice(["ok", "ok", "fail", "failbin", "killed", "faillong", "ignore"])
         cases.append(f"transports\t{hexs(f) if f != '-' else '-'}\t{hexlist([t.encode() for t in to])}\t{hexs(msg)}\t{kind}")
+    # a program that never reads its input: a message larger than the pipe's buffer (the write fails) and a small one; a
+    # program that fails with a long diagnostic (multi-byte characters at odd offsets)
+    big = (b"0123456789abcdef" * 16 + b"\r\n") * 1000
+    for kind, msg in (("ignore", big), ("ignore", b"small\r\n"), ("faillong", b"m\r\n"), ("faillong", big[:70000])):
+        cases.append(f"transports\t{hexs('a@b.c')}\t{hexlist([b'x@y.z'])}\t{hexs(msg)}\t{kind}")
     for subj, body in [("s", "b\r\n"), ("héllo wörld", "bödy\r\n"), ("x" * 200, ".\r\n.\r\n")]:
         cases.append(f"sendmsg\t{hexs('A <a@b.c>')}\t{hexs('x@y.z')}\t{hexs(subj)}\t{hexs(body)}")
     # the same scripted server behaviours through the sync and the tokio client
